@@ -3,8 +3,11 @@
 // Real transactions over real fs backends (txk) with value types []byte, map[string]any, []int, *struct (reference
 // kinds) and string, struct (value kinds), values in the node or in value blobs: read, mutate the returned value in
 // place, roll back / commit nothing, read again in later transactions of the same process, optionally after
-// another transaction committed an unrelated update or after the caches were dropped. Each read's content is
-// compared with Sop.Model.Alias (a heap model of who shares which cell) and with the committed contents.
+// another transaction committed an unrelated update or after the caches were dropped — all of them (cold restart), only
+// the L1 node MRU (evict1: by dropping the entries or by real cache pressure), only the L1 Handles cache (evicth), only
+// the L2 cache (evict2) —, update + rollback, and reads by another, cold process (cold k). Each read's content is
+// compared with Sop.Model.Alias (a heap model of who shares which cell and which node object, over the three-level
+// lookup L1 -> L2 -> blob) and with the committed contents.
 package main
 
 import (
@@ -17,6 +20,7 @@ import (
 
 	"github.com/sharedcode/sop"
 	"github.com/sharedcode/sop/btree"
+	"github.com/sharedcode/sop/cache"
 
 	"verifharness/hx"
 	"verifharness/persistx"
@@ -80,8 +84,8 @@ var cStruct = codec[sv]{"struct", false,
 	func(v *sv, x int) { v.N = x }}
 
 type op struct {
-	kind string // begin read mutate update commit rollback clear
-	k, v int
+	kind string // begin read mutate update commit rollback clear evict1 evicth evict2 cold
+	k, v int    // evict1: v=1 evicts by cache pressure (flooding the MRU) instead of dropping the entries
 }
 
 func (o op) line() string {
@@ -92,6 +96,8 @@ func (o op) line() string {
 		return fmt.Sprintf("mutate %d", o.v)
 	case "update":
 		return fmt.Sprintf("update %d %d", o.k, o.v)
+	case "cold":
+		return fmt.Sprintf("cold %d", o.k)
 	}
 	return o.kind
 }
@@ -163,6 +169,44 @@ func runCase[TV any](s *hx.Session, ctx context.Context, c codec[TV], vnf bool, 
 	}
 	var muts []mutation
 	laterReadAfterMutation := false
+	var rolledBack []int // values of updates whose transaction rolled back (or is still open)
+	evictedSince := ""   // which cache tiers lost the node since the last load
+	evictAtLoad := ""    // … at the load of the current transaction
+	loaded := false
+	readAfterEvict := false
+	touch := func() {
+		if !loaded {
+			loaded, evictAtLoad, evictedSince = true, evictedSince, ""
+			if evictAtLoad != "" {
+				s.Hit("load_after_evict:" + evictAtLoad)
+			}
+		}
+	}
+	judge := func(k, got, want int, who string) {
+		sig := "C38/read-mismatch"
+		for i := len(muts) - 1; i >= 0; i-- {
+			if muts[i].x == got && c.byRef {
+				switch {
+				case vnf:
+					// values fetched from value blobs are private cells (C38_private_fetched): never a known finding
+					sig = "C38/fetched-value-mutation-visible-to-later-transaction"
+				case muts[i].cleared || who == "cold":
+					sig = "C38/in-place-mutation-made-durable-by-a-later-commit"
+				default:
+					sig = "C38/in-place-mutation-visible-to-later-transaction"
+				}
+				break
+			}
+		}
+		if sig == "C38/read-mismatch" {
+			for _, x := range rolledBack {
+				if x == got {
+					sig = "C38/uncommitted-update-visible-to-later-transaction"
+				}
+			}
+		}
+		s.Fail(sig, "a transaction that did not write the value reads something other than the committed content", fmt.Sprintf("%s %s %s read %d: got %d want %d (tiers evicted before this transaction's load: %q)", c.name, place, who, k, got, want, evictAtLoad))
+	}
 	for _, o := range ops {
 		switch o.kind {
 		case "begin":
@@ -179,8 +223,10 @@ func runCase[TV any](s *hx.Session, ctx context.Context, c codec[TV], vnf bool, 
 			}
 			pending = map[int]int{}
 			txnMutated = false
+			loaded = false
 			s.Op("begin", "ok")
 		case "read":
+			touch()
 			ok, err := b.Find(ctx, o.k, false)
 			if err != nil {
 				return err
@@ -201,19 +247,11 @@ func runCase[TV any](s *hx.Session, ctx context.Context, c codec[TV], vnf bool, 
 				if len(muts) > 0 && !txnMutated {
 					laterReadAfterMutation = true
 				}
+				if evictAtLoad != "" && (len(muts) > 0 || len(rolledBack) > 0) {
+					readAfterEvict = true
+				}
 				if got != want && !txnMutated {
-					sig := "C38/read-mismatch"
-					for i := len(muts) - 1; i >= 0; i-- {
-						if muts[i].x == got && c.byRef {
-							if muts[i].cleared {
-								sig = "C38/in-place-mutation-made-durable-by-a-later-commit"
-							} else {
-								sig = "C38/in-place-mutation-visible-to-later-transaction"
-							}
-							break
-						}
-					}
-					s.Fail(sig, "a transaction that did not write the value reads something other than the committed content", fmt.Sprintf("%s %s read %d: got %d want %d", c.name, place, o.k, got, want))
+					judge(o.k, got, want, "txn")
 				}
 			}
 			s.Op(o.line(), out)
@@ -225,11 +263,13 @@ func runCase[TV any](s *hx.Session, ctx context.Context, c codec[TV], vnf bool, 
 			}
 			s.Op(o.line(), "ok")
 		case "update":
+			touch()
 			ok, err := b.Update(ctx, o.k, c.mk(o.v))
 			if err != nil || !ok {
 				return fmt.Errorf("update: %v %v", ok, err)
 			}
 			pending[o.k] = o.v
+			rolledBack = append(rolledBack, o.v) // until committed
 			s.Op(o.line(), "ok")
 			s.Hit("update")
 		case "commit":
@@ -238,6 +278,11 @@ func runCase[TV any](s *hx.Session, ctx context.Context, c codec[TV], vnf bool, 
 			}
 			for k, v := range pending {
 				committed[k] = v
+				for i := range rolledBack {
+					if rolledBack[i] == v {
+						rolledBack[i] = -1
+					}
+				}
 			}
 			s.Op("commit", "ok")
 		case "rollback":
@@ -250,14 +295,77 @@ func runCase[TV any](s *hx.Session, ctx context.Context, c codec[TV], vnf bool, 
 			for i := range muts {
 				muts[i].cleared = true
 			}
+			evictedSince = "all"
 			s.Op("clear", "ok")
 			s.Hit("clear")
+		case "evict1":
+			// the L1 node MRU loses the node; L2 and the L1 Handles cache keep what they have
+			if o.v == 1 {
+				cache.VerifC38Flood(cache.GetGlobalL1Cache(e.L2))
+				s.Hit("evict1:pressure")
+			} else {
+				cache.VerifC20DropNodes(cache.GetGlobalL1Cache(e.L2))
+				s.Hit("evict1:drop")
+			}
+			evictedSince += "1"
+			s.Op("evict1", "ok")
+		case "evicth":
+			cache.VerifC20DropHandles(cache.GetGlobalL1Cache(e.L2))
+			evictedSince += "h"
+			s.Op("evicth", "ok")
+		case "evict2":
+			if err := e.L2.Clear(ctx); err != nil {
+				return err
+			}
+			evictedSince += "2"
+			s.Op("evict2", "ok")
+		case "cold":
+			// another, freshly started process reads the key
+			out := "none"
+			err := e.AsOtherProcess(func(o2 *txk.Env) error {
+				t2, err := o2.NewTxn(ctx, sop.ForReading, time.Minute, nil)
+				if err != nil {
+					return err
+				}
+				if err := t2.T.Begin(ctx); err != nil {
+					return err
+				}
+				b2, err := txk.OpenBtree[int, TV](ctx, t2, storeName)
+				if err != nil {
+					return err
+				}
+				ok, err := b2.Find(ctx, o.k, false)
+				if err != nil {
+					return err
+				}
+				if ok {
+					v, err := b2.GetCurrentValue(ctx)
+					if err != nil {
+						return err
+					}
+					got := c.get(v)
+					out = strconv.Itoa(got)
+					if got != committed[o.k] {
+						judge(o.k, got, committed[o.k], "cold")
+					}
+				}
+				return t2.T.Rollback(ctx)
+			})
+			if err != nil {
+				return fmt.Errorf("cold read: %w", err)
+			}
+			s.Op(o.line(), out)
 		}
 		s.Hit("op:" + o.kind)
 	}
-	if laterReadAfterMutation {
+	if laterReadAfterMutation || readAfterEvict {
 		s.Nontrivial()
+	}
+	if laterReadAfterMutation {
 		s.Hit("later_read_after_mutation")
+	}
+	if readAfterEvict {
+		s.Hit("read_after_partial_eviction_following_a_private_mutation")
 	}
 	return nil
 }
@@ -290,8 +398,12 @@ func parseOps(src string) []op {
 		}
 		o := op{kind: w[0]}
 		switch w[0] {
-		case "read":
+		case "read", "cold":
 			o.k, _ = strconv.Atoi(w[1])
+		case "evict1":
+			if len(w) > 1 && w[1] == "pressure" {
+				o.v = 1
+			}
 		case "mutate":
 			o.v, _ = strconv.Atoi(w[1])
 		case "update":
@@ -305,7 +417,7 @@ func parseOps(src string) []op {
 
 func gen(p *hx.Prng, vnf bool) []op {
 	var ops []op
-	ntx := 2 + p.Intn(4)
+	ntx := 2 + p.Intn(5)
 	for i := 0; i < ntx; i++ {
 		ops = append(ops, op{kind: "begin"})
 		n := 1 + p.Intn(3)
@@ -314,7 +426,7 @@ func gen(p *hx.Prng, vnf bool) []op {
 			if p.Chance(1, 2) {
 				ops = append(ops, op{kind: "mutate", v: 10 + p.Intn(90)})
 			}
-			if !vnf && p.Chance(1, 5) {
+			if !vnf && p.Chance(1, 4) {
 				ops = append(ops, op{kind: "update", k: 1 + p.Intn(3), v: 10 + p.Intn(90)})
 			}
 		}
@@ -326,8 +438,23 @@ func gen(p *hx.Prng, vnf bool) []op {
 		if p.Chance(1, 6) {
 			ops = append(ops, op{kind: "mutate", v: 10 + p.Intn(90)}) // the caller still holds the value after its transaction ended
 		}
-		if p.Chance(1, 5) {
+		// between transactions: the cache tiers lose the node, separately or together
+		switch p.Intn(12) {
+		case 0:
 			ops = append(ops, op{kind: "clear"})
+		case 1, 2, 3:
+			ops = append(ops, op{kind: "evict1", v: p.Intn(2)})
+		case 4:
+			ops = append(ops, op{kind: "evict2"})
+		case 5:
+			ops = append(ops, op{kind: "evicth"})
+		case 6:
+			ops = append(ops, op{kind: "evict1", v: p.Intn(2)}, op{kind: "evict2"})
+		case 7:
+			ops = append(ops, op{kind: "evict1", v: p.Intn(2)}, op{kind: "evicth"})
+		}
+		if p.Chance(1, 5) {
+			ops = append(ops, op{kind: "cold", k: 1 + p.Intn(3)})
 		}
 	}
 	return ops
@@ -335,12 +462,45 @@ func gen(p *hx.Prng, vnf bool) []op {
 
 func run(o hx.RunOpts) error {
 	s := hx.NewSession(o, "one case = one store of three items (value type []byte | map[string]any | []int | *struct | string | struct; values in the node, or in value blobs of an actively persisted store) "+
-		"and 2-5 real transactions in one process: read (Find+GetCurrentValue), write through the returned value, update another key, commit/rollback, drop the caches; every read's content is diffed with the heap model Sop.Model.Alias "+
-		"and judged against the committed contents. distinct = canonical op hash; non-trivial = a read in a later transaction after some in-place mutation")
+		"and 2-6 real transactions in one process: read (Find+GetCurrentValue), write through the returned value, update a key, commit/rollback; between transactions the caches are dropped (all; only the L1 node MRU, by dropping or by cache pressure; only the L1 Handles; only L2; combinations) and another, cold process reads; every read's content is diffed with the heap model Sop.Model.Alias "+
+		"and judged against the committed contents. distinct = canonical op hash; non-trivial = a read in a later transaction after some in-place mutation, or after a partial eviction that follows an in-place mutation / an uncommitted update")
 	ctx := context.Background()
 	// directed corpus (DESIGN.md §6 C38 and the Lean witnesses)
 	jello := parseOps("begin;read 1;mutate 77;rollback;begin;read 1;commit;begin;read 1;rollback")
 	durable := parseOps("begin;read 1;mutate 77;rollback;begin;update 2 55;commit;clear;begin;read 1;rollback")
+	// the L1 node entry is evicted while L2 keeps the node (the L2-hit fill must install a COPY): update + rollback,
+	// in-place mutation, then a reader of the same process and a cold one; L2 payload with the handle's version
+	// (after a blob load) and with a stale one (after a commit); only L2 cleared; both; the Handles cache
+	evUpd := parseOps("begin;read 1;rollback;evict1;begin;read 1;update 1 55;rollback;begin;read 1;read 2;rollback;cold 1")
+	evUpdP := parseOps("begin;read 1;rollback;evict1 pressure;begin;read 2;update 2 55;read 2;rollback;begin;read 2;rollback;cold 2")
+	evMut := parseOps("begin;read 1;rollback;evict1;begin;read 1;mutate 77;rollback;begin;read 1;rollback;cold 1")
+	evStale := parseOps("begin;read 1;update 2 44;commit;evict1;begin;read 1;mutate 77;update 3 66;rollback;begin;read 1;read 3;rollback;cold 1")
+	evL2 := parseOps("begin;read 1;rollback;evict2;begin;read 1;mutate 77;update 2 55;rollback;begin;read 1;read 2;rollback;cold 1")
+	evBoth := parseOps("begin;read 1;rollback;evict1;evict2;begin;read 1;mutate 77;update 2 55;rollback;begin;read 1;read 2;rollback")
+	evH := parseOps("begin;read 1;update 2 44;commit;evicth;begin;read 1;update 1 55;rollback;evict1;evicth;begin;read 1;read 2;rollback")
+	noUpd := func(ops []op) []op { // the model's update does nothing in a store whose values are fetched
+		var out []op
+		for _, o := range ops {
+			if o.kind != "update" {
+				out = append(out, o)
+			}
+		}
+		return out
+	}
+	for _, k := range kinds {
+		for _, c := range []struct {
+			label string
+			ops   []op
+		}{{"corpus-evict1-update-rollback", evUpd}, {"corpus-evict1-pressure-update-rollback", evUpdP}, {"corpus-evict1-mutate", evMut},
+			{"corpus-evict1-stale-payload", evStale}, {"corpus-evict2", evL2}, {"corpus-evict1+2", evBoth}, {"corpus-evicth", evH}} {
+			if err := dispatch(s, ctx, k, false, [3]int{11, 22, 33}, c.ops, c.label); err != nil {
+				return err
+			}
+			if err := dispatch(s, ctx, k, true, [3]int{11, 22, 33}, noUpd(c.ops), c.label+"-vnf"); err != nil {
+				return err
+			}
+		}
+	}
 	for _, k := range kinds {
 		if err := dispatch(s, ctx, k, false, [3]int{11, 22, 33}, jello, "corpus-jello"); err != nil {
 			return err
